@@ -89,6 +89,7 @@ inline Exec run_history(const History& h, const Options& o, bool want_intro, std
             try {
                 ret = zoo::vf_apply(*root, st.op, st.ev);
             } catch (Nondeterminism&) { throw; }
+            catch (vf::AssertFailed& a) { esc = true; what = a.what; }
             catch (std::exception& ex) { esc = true; what = ex.what(); }
             catch (...) { esc = true; what = "non-std"; }
             if (st.op == "start") {
@@ -344,6 +345,7 @@ inline std::string run_copy_history(const History& h, const Options& o) {
                     ret = zoo::vf_apply(*tgt, op, st.ev);
                 }
             } catch (Nondeterminism&) { throw; }
+            catch (vf::AssertFailed& a) { esc = true; what = a.what; }
             catch (std::exception& ex) { esc = true; what = ex.what(); }
             catch (...) { esc = true; what = "non-std"; }
             if (i + 1 == h.size()) {
